@@ -519,7 +519,7 @@ def rule_cap(ctx, which, units=None, fnames=('search',)):
                         continue
                     t0 = f.term(c, inline=True)
                     te = norm_tparams(expand_calls(f.unit, t0))
-                    if te != t0 and te[0] == 'call' and te[1] == 'std::min' and len(te[2]) == 2 and _strip_cast(te[2][0])[0] == 'call' and _strip_cast(te[2][0])[1].endswith('::operator()'):
+                    if f.n(c).get('ct') != 'std::min' and te[0] == 'call' and te[1] == 'std::min' and len(te[2]) == 2 and _strip_cast(te[2][0])[0] == 'call' and _strip_cast(te[2][0])[1].endswith('::operator()'):
                         sites.append((c, te))
             if not sites:
                 if any(reachable(f, r) for r in f.returns()):
@@ -1318,6 +1318,9 @@ def rule_upper_level_sentinel(ctx, which, units=None):
                             for r_ in L.returns():
                                 if L.n(r_)['ch']:
                                     todo.append((L, L.term(L.n(r_)['ch'][0], inline=False)))
+                                    # which value is returned depends on the conditions the return statement sits under
+                                    for (ct_, lab, cn) in _conds(L, r_):
+                                        todo.append((L, ct_))
             ok = any(mentions_sentinel(t) for t in seen_terms)
             if which == 'eliasfano':
                 obs.append(Ob('SENTINEL-EXCLUDED', f, c, 'the range of segment keys coded in the Elias-Fano structure is delimited under a comparison with `sentinel` (with a last key of max - 1 the segment that maps the keys above it starts at the sentinel, and sentinel - first_key + 1 wraps the universe)',
